@@ -620,5 +620,18 @@ theorem refused_local_shutdown_changes_nothing (c : Chan) (upd ip : Bool) (h : c
 example : getShutdownRefused 3 Flags.none false false false = false ∧ getShutdownRefused 2 Flags.none false false false = false ∧
     (Ldk.CloseGate.step exAwaiting (.localShutdown true true)).2 = [.refused] := by decide
 
+/-- interactive-tx / splice (translated guards): while the update that records the counterparty's initial post-splice commitment
+    (splice_initial_commitment_signed: pause + monitor_pending_tx_signatures) is in flight, NEITHER the tx_signatures handler NOR
+    signer_maybe_unblocked releases our tx_signatures — whatever the signer state; they are owed to monitor_updating_restored,
+    which withholds them only for a pending signer -/
+theorem tx_signatures_wait_for_monitor_update (signerPending : Bool) :
+    txSignaturesHeld true spliceCsMarksTxSignaturesPending = true ∧
+    signerUnblockReleasesTxSignatures true signerPending = false ∧
+    (signerUnblockReleasesTxSignatures false signerPending = true → signerPending = false) ∧
+    restoredWithholdsTxSignatures false = false := by
+  cases signerPending <;> decide
+
+example : txSignaturesHeld false true = false ∧ signerUnblockReleasesTxSignatures false false = true := by decide
+
 end CloseGate
 end Ldk.C09
